@@ -87,14 +87,14 @@ pub fn run(ctx: &Ctx, rec: &mut Recorder) -> Result<(), String> {
             });
             cfgs.truncate(cfg_sample);
         } else if ctx.quick() && prog["pages"].as_array().map(|a| a.len()).unwrap_or(0) >= 100 {
-            // a long document under the whole lattice is slow to observe: four configurations with
-            // object streams (several object streams each) and four without
+            // a long document under the whole lattice is slow to observe: two configurations with
+            // object streams (several object streams each) and two without
             let mut with_os: Vec<usize> = cfgs.iter().copied().filter(|i| all_cfgs[*i].1.use_object_streams).collect();
             let mut without: Vec<usize> = cfgs.iter().copied().filter(|i| !all_cfgs[*i].1.use_object_streams).collect();
             r.shuffle(&mut with_os);
             r.shuffle(&mut without);
-            with_os.truncate(4);
-            without.truncate(4);
+            with_os.truncate(2);
+            without.truncate(2);
             cfgs.retain(|i| with_os.contains(i) || without.contains(i));
         } else if ctx.quick() && pno >= 4 {
             // Files with object streams carry a million-entry cross-reference stream (the writer
@@ -175,6 +175,24 @@ pub fn run(ctx: &Ctx, rec: &mut Recorder) -> Result<(), String> {
                     line["password"] = password;
                 }
                 writeln!(f, "{}", line).ok();
+                // C28: the same Document written a second time after a change that shifts object numbers
+                // (encryption adds an object before the pages): what the first write resolved must not leak
+                if flavor == "c28" && enc.is_none() && !cfg.use_object_streams && r.chance(1, 2) {
+                    built.doc.set_encryption(DocumentEncryption::new("", "second-write-owner", Permissions::from_bits(0xFFFFF0C0 | 0x0F3C), EncryptionStrength::Rc4_128bit));
+                    if let Ok(Ok(b2)) = crate::mon::guarded(|| docgen::write(&mut built.doc, cfg.clone())) {
+                        let file2 = format!("{id}-second.pdf");
+                        crate::rec::write_file(&dir.join(&file2), &b2);
+                        let mut l2 = line.clone();
+                        l2["id"] = json!(format!("{id}-second"));
+                        l2["file"] = json!(file2);
+                        l2["enc"] = json!({"strength": "rc4_128", "user_pw": "", "owner_pw": "second-write-owner", "ucls": "empty", "ocls": "ascii", "P": 0});
+                        l2["password"] = json!("");
+                        l2["second_write"] = json!(true);
+                        rec.count("second_writes_after_a_change");
+                        rec.evaluations += 1;
+                        writeln!(f, "{}", l2).ok();
+                    }
+                }
                 // second observation with the owner password
                 if let (Some(e), true) = (enc_json.as_object(), flavor == "c05") {
                     let mut l2 = line.clone();
